@@ -49,7 +49,83 @@ def make_checker(ctx, files, clients, record):
     return check
 
 
+REAL = r'''
+import random
+rng = random.Random(%(seed)d)
+class Strict:
+    """RFC 1350 client: the first answering endpoint is the transfer; anything from another endpoint gets ERROR 5"""
+    def __init__(self, server, name, opts, repeat_rrq):
+        self.s = socket.socket(socket.AF_INET, socket.SOCK_DGRAM); self.s.settimeout(1.0)
+        req = b'\0\1' + name + b'\0octet\0'
+        for k, v in opts: req += k + b'\0' + v + b'\0'
+        self.B = 512; self.buf = b''; self.expect = 1; self.peer = None; self.finished = False; self.strays = 0; self.timeouts = 0
+        for _ in range(1 + repeat_rrq):          # the request is duplicated / retransmitted before any answer is read
+            self.s.sendto(req, server)
+            time.sleep(0.02)
+    def run(self):
+        last = None
+        while not self.finished and self.timeouts < 4:
+            try:
+                d, peer = self.s.recvfrom(70000)
+            except socket.timeout:
+                self.timeouts += 1
+                if last: self.s.sendto(last, self.peer)
+                continue
+            if self.peer is None: self.peer = peer
+            if peer != self.peer:
+                self.strays += 1
+                self.s.sendto(b'\0\5\0\5Unknown transfer ID\0', peer)
+                continue
+            if d[:2] == b'\0\6':
+                parts = d[2:].split(b'\0'); o = dict(zip(parts[0:-1:2], parts[1:-1:2]))
+                if b'blksize' in o: self.B = int(o[b'blksize'])
+                last = b'\0\4\0\0'
+            elif d[:2] == b'\0\3':
+                k = d[2] * 256 + d[3]
+                if k == self.expect:
+                    self.buf += d[4:]; self.expect += 1
+                    if len(d) - 4 < self.B: self.finished = True
+                last = struct.pack('!HH', 4, self.expect - 1)
+            elif d[:2] == b'\0\5':
+                break
+            else:
+                continue
+            self.s.sendto(last, self.peer)
+        self.s.close()
+with tempfile.TemporaryDirectory() as d:
+    data = bytes(rng.getrandbits(8) for _ in range(5000))
+    open(os.path.join(d, 'f'), 'wb').write(data)
+    srv, th = start(d)
+    res = []
+    for opts in ([], [(b'blksize', b'64')], [(b'blksize', b'1468'), (b'tsize', b'0')]):
+        for repeat in (1, 2):
+            c = Strict(srv.server_address, b'f', opts, repeat)
+            c.run()
+            res.append(dict(opts=[o[0].decode() for o in opts], repeat=repeat, finished=c.finished, ok=(c.buf == data), got=len(c.buf), strays=c.strays))
+    srv.shutdown(); srv.server_close()
+print(json.dumps({'runs': res, 'size': len(data)}))
+'''
+
+
+def real_retransmitted_request(ctx):
+    """real threads and sockets: a request that is duplicated / retransmitted before the first answer arrives starts a
+    second transfer; the client keeps to the first one (RFC 1350) and must still receive exactly the file"""
+    import realserver
+    res = realserver.run_script(REAL % dict(seed=ctx.seed), timeout=120)
+    ctx.case(('real-retransmitted-rrq',), True, 'real-udp')
+    if res.get('crash'):
+        ctx.violation('tftpd.real/harness-crash', f'real-UDP scenario crashed: {res.get("stderr", "")[-300:]}', res)
+        return
+    for r in res['runs']:
+        ctx.stat('real-retransmitted-rrq-run')
+        if not (r['finished'] and r['ok']):
+            ctx.violation('tftpd.real/retransmitted-request', f'the request was sent {1 + r["repeat"]} times (options {r["opts"]}); the client kept to the '
+                          f'first transfer and received {r["got"]} of {res["size"]} bytes, finished={r["finished"]}', dict(result=res))
+            return
+
+
 def run(ctx, build):
+    real_retransmitted_request(ctx)
     R = ctx.try_runner('Tftp')
     rng = ctx.rng
     nsess = 8000 if ctx.thorough else 120
